@@ -12,7 +12,7 @@ from ..sims import H
 from ._enga import order_hash, scn_hash
 
 PROP = "C17"
-HEADLINE = ["runs", "instant_runs", "slow_runs", "strict_pairs", "steps_paced", "events_injected_future",
+HEADLINE = ["runs", "instant_runs", "slow_runs", "blocking_runs", "strict_pairs", "steps_paced", "events_injected_future",
             "events_injected_beyond_until", "set_event_without_rt", "grouped_runs"]
 
 FACTORS = [0.125, 0.25, 0.5, 1.0, 2.0, 4.0]
@@ -42,6 +42,15 @@ def mk_scn(rng: random.Random, cls: str) -> dict:
             beh["self_steps"] = {str(t): t + size for t in range(0, 40)}
         if typ == "event-based":
             s["initial_event"] = rng.randrange(0, 2)
+        if cls == "blocking":
+            # in-process simulators block the loop while they compute: virtual time passes inside step()
+            blk = {}
+            for t in range(until):
+                if rng.random() < 0.4:
+                    blk[str(t)] = rng.choice([0.25, 0.5, 1.5, 2.5, 5.0])
+            if i == 0:
+                blk["0"] = rng.choice([1.5, 2.5, 5.0, 9.0])     # the very first step of the first simulator
+            beh["block"] = blk
         if cls == "slow":
             dur = {}
             for t in range(until):
@@ -232,7 +241,7 @@ def run_slice(job: dict) -> dict:
 
     for i in range(w, job["n_cases"], W):
         rng = random.Random(H(seed, "c17", i))
-        cls = ["instant", "slow", "events", "instant"][i % 4]
+        cls = ["instant", "slow", "events", "instant", "blocking"][i % 5]
         scn = mk_scn(rng, cls)
         sched = {"policy": "fifo", "atomic": True} if i % 3 else {"policy": "random", "seed": i}
         tr = run_case(scn, sched)
@@ -320,7 +329,8 @@ def evidence(m, tier, seed):
         "rule": "virtual clock (loop.time() and mosaik.scheduler.perf_counter are the same harness clock; step durations "
                 "are virtual sleeps; timers fire exactly): generated scenarios (1-4 simulators, all types, with and "
                 "without groups, plain/shifted connections), rt_factor in {0.125..4} x time_resolution in {0.5,1,2}; "
-                "classes: instant simulators, slow steps (durations up to 5 s), external set_event(t) injected at "
+                "classes: instant simulators, slow steps (durations up to 5 s, awaiting), blocking steps (virtual time "
+                "passes inside step() without the loop running, incl. a long very first step), external set_event(t) injected at "
                 "non-boundary virtual instants for future t < until and t >= until; rt_strict re-run of every run "
                 "that reported 'too slow'; set_event without rt_factor; distinct_nontrivial = distinct (scenario, "
                 "global event order)",
